@@ -189,11 +189,11 @@ func Gen(t *rapid.T, o Opts) Spec {
 				nn := fmt.Sprintf("added%d", i)
 				// declared type x DEFAULT: rows written before the ALTER get
 				// the default with the column's affinity applied
-				def := rapid.SampledFrom(addDefaults).Draw(t, "hadddef")
+				def := rapid.SampledFrom(AddDefaults).Draw(t, "hadddef")
 				if rapid.IntRange(0, 3).Draw(t, "haddold") == 0 {
 					def = rapid.SampledFrom([]string{"", "DEFAULT 'dflt'", "DEFAULT 5", "DEFAULT 7", "DEFAULT NULL", "DEFAULT -3", "DEFAULT TRUE", "DEFAULT abc", "DEFAULT ''"}).Draw(t, "hadddef2")
 				}
-				st = strings.TrimSpace(fmt.Sprintf("ALTER TABLE %s ADD COLUMN %s %s %s", tn, nn, rapid.SampledFrom(addTypes).Draw(t, "haddtype"), def))
+				st = strings.TrimSpace(fmt.Sprintf("ALTER TABLE %s ADD COLUMN %s %s %s", tn, nn, rapid.SampledFrom(AddTypes).Draw(t, "haddtype"), def))
 			case 4:
 				st = "VACUUM"
 			case 5:
@@ -494,11 +494,11 @@ func ShowGot(got []interface{}) string {
 	return vs.String()
 }
 
-var addTypes = []string{"", "", "INTEGER", "INT", "TEXT", "REAL", "NUMERIC", "BLOB", "VARCHAR(10)", "DECIMAL(10,5)", "FLOAT", "DOUBLE", "BOOLEAN", "TEXT COLLATE NOCASE", "BIGINT", "DATETIME"}
+var AddTypes = []string{"", "", "INTEGER", "INT", "TEXT", "REAL", "NUMERIC", "BLOB", "VARCHAR(10)", "DECIMAL(10,5)", "FLOAT", "DOUBLE", "BOOLEAN", "TEXT COLLATE NOCASE", "BIGINT", "DATETIME"}
 
 // DEFAULT clauses for added columns: integer, real and text literals, among
 // them texts that look like numbers to some parsers and not to SQLite.
-var addDefaults = []string{"", "DEFAULT 5", "DEFAULT -3", "DEFAULT +7", "DEFAULT 1", "DEFAULT 010", "DEFAULT 0x10", "DEFAULT 1e3", "DEFAULT 1.5", "DEFAULT -2.25", "DEFAULT 3.0",
+var AddDefaults = []string{"", "DEFAULT 5", "DEFAULT -3", "DEFAULT +7", "DEFAULT 1", "DEFAULT 010", "DEFAULT 0x10", "DEFAULT 1e3", "DEFAULT 1.5", "DEFAULT -2.25", "DEFAULT 3.0",
 	"DEFAULT 9223372036854775807", "DEFAULT 9223372036854775808", "DEFAULT -9223372036854775808", "DEFAULT TRUE", "DEFAULT FALSE", "DEFAULT abc", "DEFAULT NULL",
 	"DEFAULT ''", "DEFAULT 'dflt'", "DEFAULT 'x'", "DEFAULT 'Q'", "DEFAULT '12'", "DEFAULT ' 12 '", "DEFAULT '1e2'", "DEFAULT '1e999'", "DEFAULT '-1e999'", "DEFAULT 'inf'",
 	"DEFAULT 'Infinity'", "DEFAULT '-inf'", "DEFAULT 'nan'", "DEFAULT 'NaN'", "DEFAULT '0x10'", "DEFAULT '0x1p4'", "DEFAULT '+-5'", "DEFAULT '++5'", "DEFAULT '+5'", "DEFAULT '-5'",
